@@ -26,7 +26,7 @@
 (* Tampering is split in two steps so that every (position, mask) is a state of its   *)
 (* own: TLC parallelises over states.                                                 *)
 EXTENDS Integers, Sequences, FiniteSets, TLC, Json
-CONSTANTS Seed, Keys, MLens, Kids, MKinds, Neg, TamperLens, Masks, MaxChain, Refine, OutFile
+CONSTANTS Seed, Keys, MLens, Kids, MKinds, LayIds, Neg, TamperLens, Masks, MaxChain, Refine, OutFile
 S  == INSTANCE SM2
 O  == INSTANCE Sm2PkeObj
 D  == INSTANCE DerCt
@@ -61,6 +61,10 @@ Scen == {s \in [key : Keys, mlen : MLens, kid : Kids, mk : MKinds] :
            (s.kid = "zt") => (s.key = "std" /\ s.mlen \in {1, 2} /\ s.mk = "rand")}
 HexD(d) == Hx!FromBytes(S!F32(d))
 
+(* the layouts in which the scenario's ciphertext is first written (helper chains reach the others anyway) *)
+LayOf(id) == CASE id = "u32" -> O!Plain("C1C3C2", "u") [] id = "c32" -> O!Plain("C1C3C2", "c")
+               [] id = "u23" -> O!Plain("C1C2C3", "u") [] id = "c23" -> O!Plain("C1C2C3", "c") [] OTHER -> O!Asn1
+StartLayouts == {LayOf(id) : id \in LayIds}
 NoTam == [k |-> "-", pos |-> 0, mask |-> 0]
 Tampers(s) == IF s = <<>> THEN {}
               ELSE {[k |-> "flip", pos |-> p, mask |-> m] : p \in 1..Len(s), m \in Masks}
@@ -236,13 +240,13 @@ LibRoundTrip(l, how) ==
         /\ Emit("libroundtrip", SubSeq([i \in 1..Len(ovs) |-> st(i)], 1, Len(ovs)))
 
 Next == \/ Encrypt
-        \/ \E l \in O!Layouts : Layout(l)
+        \/ \E l \in StartLayouts : Layout(l)
         \/ Dec \/ WrongOrder \/ WrongKey
         \/ \E cv \in O!ConvsFrom(lay) : Convert(cv)
         \/ \E t \in Tampers(cur) : PickTamper(t)
         \/ EvalTamper
         \/ \E kind \in MalKinds : Malformed(kind)
-        \/ \E l \in O!Layouts, how \in {"nil", "opts", "asn1func"} : LibRoundTrip(l, how)
+        \/ \E l \in StartLayouts, how \in {"nil", "opts", "asn1func"} : LibRoundTrip(l, how)
 Spec == Init /\ [][Next]_vars
 
 (* ---------------------------------------------------- C07 on the model *)
